@@ -1060,6 +1060,8 @@ def run(chk):
                        "constraint, proximal_operator with dict / list valued constraints on 1-4 modes, one or two constraints, every order (unconstrained mode = identity)}; for about one in seven projection calls the output is fed back through the same "
                        "call (class 'second': a two-step sequence under the correspondence); "
                        "svd_thresholding / procrustes on matrices up to 4x4 (thorough 6x6) incl. rank-1, against the recorded answer of tl.truncated_svd; "
+                       "smoothness_prox / proximal_operator(smoothness=t) on tensors with three and four dimensions (shape[-2] = shape[0] accepted and compared slice by slice, "
+                       "otherwise raised-iff-the-model-refuses); the l1-ball operator's own output fed back also after the known move of a column inside the ball (zero-free columns); "
                        "a case is non-trivial if the tensor has more than one entry and is not all zero; distinct key = (operator, shape, class, kind, route)")
     static_thread.join()
     if "info" not in static_box:
@@ -1077,8 +1079,10 @@ def run(chk):
                        "tl.norm / tl.solve / tl.truncated_svd are oracles: the norm and the SVD enter the model as rational tape values checked against their contracts "
                        "(s*s = sum of squares; U diag(s) V = M, U^T U = V V^T = I), the solve through the exact certificate sm_apply t x = v on the model's own elimination",
                        "np.argsort tie order is unspecified: hard-thresholding outputs are compared up to the choice among entries of equal magnitude",
-                       "svd_thresholding / procrustes: the Coq theorems (C12_procrustes_*, C12_svt_*) assume the EXACT contract of the SVD oracle; the per-case "
-                       "tape is checked against that contract to 1e-9 only",
+                       "feasibility / idempotence of procrustes and firm non-expansiveness of svd_thresholding: the Coq theorems assume the EXACT contract of the SVD "
+                       "oracle while the per-case tape meets it to 1e-9 only; optimality of svd_thresholding and the maximisation clause of procrustes no longer do: "
+                       "every case evaluates the Booleans svt_case_ok / procrustes_case_ok and the bounds svt_gap / procrustes_gap of C12_svt_case_certified / "
+                       "C12_procrustes_case_certified in exact arithmetic (gap <= 1e-7 (t sum soft(s) + |M|^2 / 2), resp. <= 1e-7 sum s)",
                        "the dispatch table of proximal_operator is regenerated from the source by an ast translation on every run (corr:C12-static) and compared with "
                        "Model/ProxDispatch.pop_of inside Coq; the translator is harness code (trusted), fail-closed on constructs it does not recognise"]
     chk.trusted += ["reference solvers of the predicates (PAVA, bisection simplex projection, sorted top-k, numpy.linalg.svd) - search aids only"]
